@@ -46,8 +46,7 @@ def _module_state(ctx, col):
                 tgt, val = node.targets[0].id, node.value
             elif isinstance(node, ast.AnnAssign) and isinstance(node.target, ast.Name) and node.value is not None:
                 tgt, val = node.target.id, node.value
-            if tgt and (isinstance(val, (ast.Dict, ast.List, ast.Set)) or (isinstance(val, ast.Call) and ast.unparse(val.func).split(".")[-1] in
-                                                                         ("dict", "list", "set", "defaultdict", "OrderedDict", "WeakValueDictionary", "Counter", "deque"))):
+            if tgt and (isinstance(val, (ast.Dict, ast.List, ast.Set)) or (isinstance(val, ast.Call) and _is_container_ctor(val))):
                 containers[tgt] = node
         n += 1
         if not containers:
@@ -70,10 +69,58 @@ def _module_state(ctx, col):
                             "calls in the process - what this function returns for one argument can depend on which arguments it saw before",
                             text=f"module state {name}")
     _class_state(ctx, col, "R19.5")
+    _foreign_state(ctx, col, "R19.5")
     col.add("R19.5", "package", "src/mdpax", 0, True, f"{n} modules scanned: no function writes a module-level or class-level container", text="module state scanned")
 
 
-_CONTAINER_CTORS = ("dict", "list", "set", "defaultdict", "OrderedDict", "WeakValueDictionary", "Counter", "deque")
+_CONTAINER_CTORS = ("dict", "list", "set", "defaultdict", "OrderedDict", "WeakValueDictionary", "WeakKeyDictionary", "WeakSet", "Counter", "deque",
+                    "ChainMap", "SimpleNamespace", "LRUCache", "TTLCache", "Cache", "bytearray")
+
+
+def _is_container_ctor(call) -> bool:
+    import ast
+    return ast.unparse(call.func).split(".")[-1] in _CONTAINER_CTORS
+
+
+def _foreign_state(ctx, col, rule="R19.5"):
+    """Writes into the problem object from solver code.  The problem is supplied by the caller and may be shared by any number of solvers
+    (and outlive them): an attribute or `__dict__` entry placed on it by one solver is state shared by all of them, exactly like a
+    module-level container - what a later solver computes can then depend on the settings (batch size, device count, gamma, ..) of an
+    earlier one.  Expected count zero."""
+    import ast
+
+    def rooted_in_problem(e, params):
+        # self.problem[...], problem (a parameter of a solver method), through attribute / subscript chains
+        while isinstance(e, (ast.Attribute, ast.Subscript)):
+            if isinstance(e, ast.Attribute) and e.attr == "problem" and isinstance(e.value, ast.Name) and e.value.id == "self":
+                return True
+            e = e.value
+        return isinstance(e, ast.Name) and e.id == "problem" and e.id in params
+
+    n = 0
+    for ci in sorted(ctx.ct.by_qual.values(), key=lambda c: c.qualname):
+        names = {k.name for k in ctx.ct.mro(ci)}
+        if not names & {"Solver", "CheckpointMixin"}:
+            continue
+        for mname, fn in ci.methods.items():
+            params = {a.arg for a in fn.args.args + fn.args.kwonlyargs}
+            n += 1
+            for x in ast.walk(fn):
+                hit = None
+                if isinstance(x, (ast.Attribute, ast.Subscript)) and isinstance(x.ctx, (ast.Store, ast.Del)) and rooted_in_problem(x.value, params):
+                    hit = x
+                elif isinstance(x, ast.Call) and isinstance(x.func, ast.Attribute) and x.func.attr in MUTATORS and rooted_in_problem(x.func.value, params):
+                    hit = x
+                elif isinstance(x, ast.Call) and ast.unparse(x.func) in ("setattr", "object.__setattr__", "delattr") and x.args and (
+                        rooted_in_problem(x.args[0], params) or (isinstance(x.args[0], ast.Name) and x.args[0].id == "problem" and "problem" in params)):
+                    hit = x
+                elif isinstance(x, ast.Call) and ast.unparse(x.func) == "vars" and x.args and rooted_in_problem(ast.Attribute(value=x.args[0], attr="_", ctx=ast.Load()), params):
+                    hit = x
+                if hit is not None:
+                    col.add(rule, f"{ci.name}.{mname}", ci.module.relpath, hit.lineno, False,
+                            f"`{ast.unparse(hit)[:80]}` writes into the problem object: the problem is shared by every solver built on it, so what is stored "
+                            "there by one solver (for its batch size / device count / settings) is read back by the next one", text="state placed on the problem object")
+    col.add(rule, "solvers", "src/mdpax", 0, True, f"{n} solver / mixin methods scanned: none writes into the problem object", text="problem object scanned")
 
 
 def _class_state(ctx, col, rule):
@@ -100,14 +147,27 @@ def _class_state(ctx, col, rule):
                    if isinstance(n, ast.Attribute) and isinstance(n.ctx, ast.Store) and isinstance(n.value, ast.Name) and n.value.id == "self"}
         for k in family:
             for fn in k.methods.values():
+                def class_ref(e):
+                    # cls / self / the class by name / type(self) / self.__class__
+                    if isinstance(e, ast.Name):
+                        return e.id in ("cls", "self", ci.name, k.name)
+                    txt = ast.unparse(e)
+                    return txt in ("type(self)", "self.__class__", "type(cls)", "cls.__class__")
+                # a local bound to the container (tables = type(self)._tables) is the container
+                alias = {}
+                for st in ast.walk(fn):
+                    if isinstance(st, ast.Assign) and len(st.targets) == 1 and isinstance(st.targets[0], ast.Name) and isinstance(st.value, ast.Attribute) \
+                            and st.value.attr in containers and st.value.attr not in rebound and class_ref(st.value.value):
+                        alias[st.targets[0].id] = st.value
                 for x in ast.walk(fn):
                     base = None
                     if isinstance(x, ast.Subscript) and isinstance(x.ctx, (ast.Store, ast.Del)):
                         base = x.value
                     elif isinstance(x, ast.Call) and isinstance(x.func, ast.Attribute) and x.func.attr in MUTATORS:
                         base = x.func.value
-                    if isinstance(base, ast.Attribute) and base.attr in containers and base.attr not in rebound and isinstance(base.value, ast.Name) \
-                            and base.value.id in ("cls", "self", ci.name, k.name):
+                    if isinstance(base, ast.Name) and base.id in alias:
+                        base = alias[base.id]
+                    if isinstance(base, ast.Attribute) and base.attr in containers and base.attr not in rebound and class_ref(base.value):
                         col.add(rule, f"{k.name}.{fn.name}", k.module.relpath, x.lineno, False,
                                 f"`{ast.unparse(x)[:70]}` writes the class-level container `{ci.name}.{base.attr}` (line {containers[base.attr].lineno}): state shared "
                                 "by every instance in the process - what one solver or one call gets can depend on what another one did before (a manager, "
